@@ -35,7 +35,7 @@ ASSUMPTIONS = [
     'step budget counts Python-level events (PY_START + JUMP); a hang inside a C extension would surface as a wall-clock harness error',
     'files up to ~40 kB (big DAT preambles, LIS files of several hundred physical records)',
 ]
-PROBES = ['same_object_reused', 'healthy_lis_several_MB', 'healthy_lis_padded_tif_blocks', 'path_and_object_compared', 'healthy_big_dat', 'healthy_lis_gt100_prs', 'healthy_RP66V1', 'healthy_LIS', 'healthy_LISt', 'healthy_LIStr', 'healthy_LAS1.2', 'healthy_LAS2.0', 'healthy_BIT', 'healthy_DAT',
+PROBES = ['same_object_reused', 'healthy_lis_several_MB', 'healthy_lis_padded_tif_blocks', 'healthy_lis_tape_marks_between_files', 'path_and_object_compared', 'healthy_big_dat', 'healthy_lis_gt100_prs', 'healthy_RP66V1', 'healthy_LIS', 'healthy_LISt', 'healthy_LIStr', 'healthy_LAS1.2', 'healthy_LAS2.0', 'healthy_BIT', 'healthy_DAT',
           'foreign_detected', 'lis_probe_on_non_lis', 'dat_probe_on_ascii', 'budget_gt_10pct', 'from_path', 'random_bytes', 'damaged_still_identified',
           'damaged_unidentified']
 EXPECTED = {'dlis': 'RP66V1', 'dlis_phys': 'RP66V1', 'bit': 'BIT', 'dat': 'DAT'}
@@ -86,6 +86,8 @@ def generate(seed, tier):
     if fam == 'lis' and rng.chance(0.45):
         gen['small_pr'] = True           # > 100 physical records: the answer must not depend on size
         gen['frames'] = rng.pick([40, 120])
+    if fam == 'lis' and rng.chance(0.12):
+        gen['tape_marks'] = True         # TIF-marked image of a tape with several logical files: a single tape mark behind each
     if fam == 'lis' and rng.chance(0.15):
         gen['tif_pad'] = True            # TIF-marked tape image whose blocks are padded to a minimum size or an alignment
     if fam == 'lis' and rng.chance(0.03):
@@ -111,19 +113,8 @@ def generate(seed, tier):
         fault_sets += [[['truncate', rng.randrange(n // 2, n)]], [['truncate', n - rng.randrange(1, 3000)]], [['bitflip', rng.randrange(n), rng.randrange(8)]]]
         return {'world': 'typing', 'gen': gen, 'fault_sets': fault_sets, 'from_path_every': 1, 'reuse_object': False, 'both_routes': True}
     if fam in ('las', 'dat') and n:
-        import re
-        if fam == 'las':
-            for m in re.finditer(rb'VERS\s*\.\s+([\d.]+)|(~V\S*)|WRAP\s*\.\s+(\S+)', by[:600]):
-                g = next(i for i in (1, 2, 3) if m.group(i) is not None)
-                text_fields.append((m.start(g), m.end(g) - m.start(g), 'las.token'))
-        else:
-            hdr = re.search(rb'^UTIM\s+DATE\s+TIME.*$', by, re.M)
-            if hdr:
-                text_fields.append((hdr.start(), min(16, hdr.end() - hdr.start()), 'dat.header'))
-                row = re.match(rb'\n(\S+)\s+(\S+)\s+(\S+)', by[hdr.end():])
-                if row:
-                    for i in (1, 2, 3):
-                        text_fields.append((hdr.end() + row.start(i), row.end(i) - row.start(i), 'dat.token'))
+        text_fields = [f for f in fields if f[2].startswith(fam + '.')]
+        fields = [f for f in fields if f not in text_fields]
         fields = list(fields) + text_fields
     if fam != 'random' and n:
         if fam == 'foreign' and not fields:
@@ -333,6 +324,8 @@ def execute(scenario):
                             res.probe('healthy_lis_gt100_prs')
                         if gen.get('huge'):
                             res.probe('healthy_lis_several_MB')
+                        if fam == 'lis' and info['model']['phys'].get('tape_marks'):
+                            res.probe('healthy_lis_tape_marks_between_files')
                         if fam == 'lis' and info['model']['phys'].get('tif_pad'):
                             res.probe('healthy_lis_padded_tif_blocks')
             else:
